@@ -299,6 +299,17 @@ namespace smt
     {
         I c_lb(0);
         I c_ub(0);
+        // inf() is a sentinel, not a number: an unbounded end stays unbounded whatever the scale and the offset..
+        const auto image = [](const I &end, const I &c, const I &k) -> I
+        {
+            if (c == 0)
+                return k;
+            if (end >= inf())
+                return c > 0 ? inf() : -inf();
+            if (end <= -inf())
+                return c > 0 ? -inf() : inf();
+            return end * c + k;
+        };
 
         switch (l.vars.size())
         {
@@ -314,8 +325,8 @@ namespace smt
             if (!is_integer(it->second) | !is_integer(l.known_term))
                 throw std::invalid_argument("not a valid integer difference logic constraint..");
             // a negative coefficient swaps the ends of the interval..
-            c_lb += (is_negative(it->second) ? ub(it->first) : lb(it->first)) * it->second.numerator() + l.known_term.numerator();
-            c_ub += (is_negative(it->second) ? lb(it->first) : ub(it->first)) * it->second.numerator() + l.known_term.numerator();
+            c_lb += image(is_negative(it->second) ? ub(it->first) : lb(it->first), it->second.numerator(), l.known_term.numerator());
+            c_ub += image(is_negative(it->second) ? lb(it->first) : ub(it->first), it->second.numerator(), l.known_term.numerator());
             break;
         }
         case 2:
@@ -328,8 +339,8 @@ namespace smt
             if (!is_integer(c1) || c1.numerator() != -1 || !is_integer(c) || !is_integer(l.known_term))
                 throw std::invalid_argument("not a valid integer difference logic expression..");
             const auto dist = distance(v1, v0); // the bounds of v0 - v1..
-            c_lb += (is_negative(c) ? dist.second : dist.first) * c.numerator() + l.known_term.numerator();
-            c_ub += (is_negative(c) ? dist.first : dist.second) * c.numerator() + l.known_term.numerator();
+            c_lb += image(is_negative(c) ? dist.second : dist.first, c.numerator(), l.known_term.numerator());
+            c_ub += image(is_negative(c) ? dist.first : dist.second, c.numerator(), l.known_term.numerator());
             break;
         }
         default:
@@ -346,17 +357,20 @@ namespace smt
 
     SMT_EXPORT bool idl_theory::equates(const lin &l0, const lin &l1) const
     {
+        // an unbounded end (the sentinel +-inf()) bounds nothing and must not enter the rational arithmetic..
+        const auto contains = [](const I &lb, const I &ub, const rational &k)
+        { return (lb <= -inf() || rational(lb) <= k) && (ub >= inf() || rational(ub) >= k); };
         if (l0.vars.empty() && l1.vars.empty())
             return l0.known_term == l1.known_term;
         else if (l0.vars.empty() && l1.vars.size() == 1)
         {
             const auto [lb, ub] = bounds(l1);
-            return rational(lb) <= l0.known_term && rational(ub) >= l0.known_term;
+            return contains(lb, ub, l0.known_term);
         }
         else if (l0.vars.size() == 1 && l1.vars.empty())
         {
             const auto [lb, ub] = bounds(l0);
-            return rational(lb) <= l1.known_term && rational(ub) >= l1.known_term;
+            return contains(lb, ub, l1.known_term);
         }
         else if (l0.vars.size() == 1 && l1.vars.size() == 1)
         {
